@@ -11,6 +11,12 @@ import (
 	"github.com/emersion/go-imap/v2/internal/imapwire"
 )
 
+// isNextDay checks whether the date of before is the day after the date of
+// since. Only the dates are sent in search keys, each in its own time zone.
+func isNextDay(since, before time.Time) bool {
+	return since.AddDate(0, 0, 1).Format(internal.DateLayout) == before.Format(internal.DateLayout)
+}
+
 func returnSearchOptions(options *imap.SearchOptions) []string {
 	if options == nil {
 		return nil
@@ -176,7 +182,7 @@ func writeSearchKey(enc *imapwire.Encoder, criteria *imap.SearchCriteria) {
 		encodeItem().Atom("UID").SP().NumSet(uidSet)
 	}
 
-	if !criteria.Since.IsZero() && !criteria.Before.IsZero() && criteria.Before.Sub(criteria.Since) == 24*time.Hour {
+	if !criteria.Since.IsZero() && !criteria.Before.IsZero() && isNextDay(criteria.Since, criteria.Before) {
 		encodeItem().Atom("ON").SP().String(criteria.Since.Format(internal.DateLayout))
 	} else {
 		if !criteria.Since.IsZero() {
@@ -186,7 +192,7 @@ func writeSearchKey(enc *imapwire.Encoder, criteria *imap.SearchCriteria) {
 			encodeItem().Atom("BEFORE").SP().String(criteria.Before.Format(internal.DateLayout))
 		}
 	}
-	if !criteria.SentSince.IsZero() && !criteria.SentBefore.IsZero() && criteria.SentBefore.Sub(criteria.SentSince) == 24*time.Hour {
+	if !criteria.SentSince.IsZero() && !criteria.SentBefore.IsZero() && isNextDay(criteria.SentSince, criteria.SentBefore) {
 		encodeItem().Atom("SENTON").SP().String(criteria.SentSince.Format(internal.DateLayout))
 	} else {
 		if !criteria.SentSince.IsZero() {
